@@ -349,18 +349,130 @@ func TestVerif_C19A(t *testing.T) {
 		cases = append(cases, " ["+strings.Join(steps, ";\n  ")+"]")
 		idx = append(idx, fmt.Sprintf("%d\t%s", hi, strings.Join(descs, " | ")))
 	}
+	// WHICH agent: the exported entry points that use the default agent location, in every agent environment
+	// situation, with decoy agents listening where agents conventionally live
+	wcases, widx := c19aEnvCases(t, res, rng, pool, mkCert, labels, logger)
 	var sb strings.Builder
 	sb.WriteString(coqCaseHeader)
-	sb.WriteString("From KM Require Import Base.Cases Model.Client.\n")
+	sb.WriteString("From KM Require Import Base.Cases Model.Client Model.ClientEnv.\n")
 	sb.WriteString("Definition histories : list (list (aop * agent)) := [\n" + strings.Join(cases, ";\n") + "\n].\n")
-	sb.WriteString("Definition c19a_mismatches := Eval vm_compute in mismatches (fun h => negb (acheck [] h)) histories.\nPrint c19a_mismatches.\n")
+	sb.WriteString("Definition c19a_bad (h : list (aop * agent)) : bool := negb (acheck [] h).\n")
+	sb.WriteString("Definition c19a_mismatches := Eval vm_compute in mismatches c19a_bad histories.\nPrint c19a_mismatches.\n")
+	// the property predicate on the observation: a mismatching history in which an observed listing itself breaks
+	// 'exactly one certificate under the label after a successful installation, nothing else removed, nothing added on error'
+	sb.WriteString("Definition c19a_violating := Eval vm_compute in mismatches (fun h => c19a_bad h && aviolates [] h) histories.\nPrint c19a_violating.\n")
+	sb.WriteString("Definition wcases : list wcase := [\n" + strings.Join(wcases, ";\n") + "\n].\n")
+	sb.WriteString("Definition c19ae_bad (c : wcase) : bool := negb (wcheck c).\n")
+	sb.WriteString("Definition c19ae_mismatches := Eval vm_compute in mismatches c19ae_bad wcases.\nPrint c19ae_mismatches.\n")
+	// observed: the identity is in an agent that SSH_AUTH_SOCK does not name
+	sb.WriteString("Definition c19ae_violating := Eval vm_compute in mismatches (fun c => c19ae_bad c && wviolates c) wcases.\nPrint c19ae_violating.\n")
+	sb.WriteString("Definition c19ae_ncases := Eval vm_compute in length wcases.\nPrint c19ae_ncases.\n")
 	sb.WriteString("Definition c19a_ncases := Eval vm_compute in fold_left (fun n (h : list (aop * agent)) => (n + N.of_nat (length h))%N) histories 0%N.\nPrint c19a_ncases.\n")
 	if err := ioutil.WriteFile(filepath.Join(verifOut(), "CasesC19A.v"), []byte(sb.String()), 0644); err != nil {
 		t.Fatal(err)
 	}
 	ioutil.WriteFile(filepath.Join(verifOut(), "CasesC19A.idx"), []byte(strings.Join(idx, "\n")+"\n"), 0644)
+	ioutil.WriteFile(filepath.Join(verifOut(), "CasesC19AE.idx"), []byte(strings.Join(widx, "\n")+"\n"), 0644)
 	if len(idx) > 0 {
 		res.sample(idx[0])
 	}
 	res.write(t, "TestVerif_C19A")
+}
+
+// ---------------------------------------------------------------- which agent
+
+// every agent environment situation x both exported entry points that connect to the DEFAULT agent location,
+// with decoys at every conventional place (then random subsets of the places).  Observed: the success flag and
+// the listing of every agent of the scene; Coq: Model/ClientEnv.v world_upsert.
+func c19aEnvCases(t *testing.T, res *verifResult, rng interface{ Intn(int) int }, pool []c19aKey, mkCert func(c19aKey) *ssh.Certificate, labels []string, logger *testlogger.Logger) (cases, idx []string) {
+	root, cleanup, err := c19eRoot()
+	if err != nil {
+		t.Fatal(err)
+	}
+	defer cleanup()
+	type plan struct {
+		situation string
+		entry     int
+		all       bool
+	}
+	var plans []plan
+	for _, s := range c19eSituations {
+		for entry := 0; entry < 2; entry++ {
+			plans = append(plans, plan{s, entry, true})
+		}
+	}
+	extra := 20
+	if verifThorough() {
+		extra = 300
+	}
+	for i := 0; i < extra; i++ {
+		plans = append(plans, plan{c19eSituations[rng.Intn(len(c19eSituations))], rng.Intn(2), false})
+	}
+	entryNames := []string{"WithAddedKeyUpsertCertIntoAgent", "UpsertCertIntoAgent"}
+	for id, pl := range plans {
+		key := pool[rng.Intn(len(pool))]
+		label := labels[rng.Intn(len(labels))]
+		mask := rng.Intn(1 << 11)
+		if pl.all {
+			mask = 1<<11 - 1
+		}
+		preload := func(kr agent.Agent, designated bool) {
+			// an older certificate and a plain key under the label the client uses, and somebody else's certificate
+			k1 := pool[rng.Intn(len(pool))]
+			kr.Add(agent.AddedKey{PrivateKey: k1.raw, Certificate: mkCert(k1), Comment: label})
+			if designated || rng.Intn(2) == 0 {
+				k2 := pool[rng.Intn(len(pool))]
+				kr.Add(agent.AddedKey{PrivateKey: k2.raw, Comment: label})
+				k3 := pool[rng.Intn(len(pool))]
+				kr.Add(agent.AddedKey{PrivateKey: k3.raw, Certificate: mkCert(k3), Comment: "somebody-else"})
+			}
+		}
+		sc, err := newC19eScene(root, id, pl.situation, func(i int) bool { return mask&(1<<uint(i)) != 0 }, preload)
+		if err != nil {
+			t.Errorf("scene %d: %v", id, err)
+			res.hit(verifHit{Key: "C19:harness:scene", Oracle: "harness", What: "could not build the agent scene: " + err.Error(), Case: pl.situation})
+			continue
+		}
+		cert := mkCert(key)
+		world, env, desc := sc.coqWorld(), sc.coqEnv(), sc.describe()
+		var callErr error
+		if pl.entry == 0 {
+			callErr = WithAddedKeyUpsertCertIntoAgent(agent.AddedKey{PrivateKey: key.raw, Certificate: cert, Comment: label, LifetimeSecs: 3600}, logger)
+		} else {
+			callErr = UpsertCertIntoAgent(ssh.MarshalAuthorizedKey(cert), key.raw, label, 3600, logger)
+		}
+		n := c19eEntry{label, c19eBlobID(cert.Marshal()), true}
+		ndecoys := 0
+		for _, nd := range sc.nodes {
+			if nd.kind == "agent" && !nd.designated {
+				ndecoys++
+			}
+		}
+		cs := map[string]interface{}{"situation": pl.situation, "entry_point": entryNames[pl.entry], "key_type": key.kind, "label": label, "scene": desc, "reported_error": fmt.Sprint(callErr)}
+		sc.oracle(res, "library "+entryNames[pl.entry], n.blob, cs)
+		des := sc.designatedAgent()
+		if callErr == nil {
+			holds := false
+			if des != nil {
+				for _, e := range c19eListing(des.rec.Agent) {
+					if e == n {
+						holds = true
+					}
+				}
+			}
+			if !holds {
+				res.hit(verifHit{Key: "C19:agent-success-without-designated-agent:" + pl.situation, Oracle: "an installation reports success only when the agent SSH_AUTH_SOCK names holds the new identity", Kind: "input",
+					What: fmt.Sprintf("%s reported success but the agent SSH_AUTH_SOCK names does not hold the identity (working designated agent: %v); %s", entryNames[pl.entry], des != nil, desc), Case: cs})
+			}
+		}
+		cases = append(cases, fmt.Sprintf(" (%s,\n   %s,\n   %s, %s,\n   %s)", env, world, n.coq(), coqBool(callErr == nil), sc.coqObserved()))
+		idx = append(idx, fmt.Sprintf("%d\t%s key=%s label=%s %s -> error=%v", len(idx), entryNames[pl.entry], key.kind, label, desc, callErr))
+		res.bump("which-agent:" + pl.situation)
+		res.eval(fmt.Sprintf("which-agent|%s|%d|%s|%d", pl.situation, pl.entry, key.kind, ndecoys), des == nil && ndecoys > 0)
+		sc.close()
+	}
+	if len(idx) > 0 {
+		res.sample(idx[len(idx)-1])
+	}
+	return cases, idx
 }
